@@ -86,7 +86,7 @@ def num(v):
 def run_case(case, ctx):
     from plinio import cost as pc
     rng = random.Random(case['prog_seed'])
-    prog = mpslib.gen_mps_program(rng, small=True, max_c=5)
+    prog = mpslib.gen_mps_program(rng, small=True, max_c=5, allow_reuse=True)
     temp = 10 ** (math.log10(0.05) + case['log_temp'] * (math.log10(20) - math.log10(0.05)))
     seen = []
     specs = {'params_bit': pc.params_bit, 'ops_bit': pc.ops_bit, 'mpic_latency': pc.mpic_latency,
@@ -151,7 +151,10 @@ def run_case(case, ctx):
         if op['op'] == 'conv':
             kk = op['k'] * op['k']
             w_per_ch = kk if op.get('dw') else cin_eff * kk
-            spatial = shapes[op['out']][1] * shapes[op['out']][2]
+            # MACs are summed over every invocation of the layer (a re-used layer runs at each
+            # call site's resolution); the parameters are counted once
+            spatial = sum(shapes[o['out']][1] * shapes[o['out']][2] for o in prog['ops']
+                          if o.get('name') == name and o['op'] == 'conv')
         else:
             w_per_ch = cin_eff
             spatial = 1
@@ -222,24 +225,27 @@ def run_case(case, ctx):
     if use_ne16 and case['mode'] == 'layer' and not tainted:
         ne16 = sys.modules['plinio.cost.ne16_latency']
         want = 0.0
-        for name, op in plain.items():
+        for name, op0 in plain.items():
             s = summ[name]
-            if op['op'] == 'conv':
-                spec = {'in_channels': torch.tensor(float(sum(alive[op['src']]))),
-                        'out_channels': torch.tensor(float(op['cout'])),
-                        'kernel_size': (op['k'], op['k']), 'groups': op['cin'] if op.get('dw') else 1,
-                        'output_shape': (1,) + tuple(shapes[op['out']])}
-                fn = ne16._ne16_latency_conv2d_dw if (op.get('dw') or op['cin'] == op['cout'] == 1) \
-                    else ne16._ne16_latency_conv2d_generic
-            else:
-                spec = {'in_features': torch.tensor(float(sum(alive[op['src']]))),
-                        'out_features': torch.tensor(float(op['fout'])),
-                        'output_shape': (1, op['fout'])}
-                fn = ne16._ne16_latency_linear
-            spec.update({'w_precision': torch.tensor(float(s['w_precision'])),
-                         'in_precision': torch.tensor(float(s['in_precision'])),
-                         'w_theta_alpha': torch.tensor(1.0)})
-            want += float(fn(spec))
+            for op in [o for o in prog['ops'] if o.get('name') == name and o['op'] == op0['op']]:
+                if op['op'] == 'conv':
+                    spec = {'in_channels': torch.tensor(float(sum(alive[op['src']]))),
+                            'out_channels': torch.tensor(float(op['cout'])),
+                            'kernel_size': (op['k'], op['k']),
+                            'groups': op['cin'] if op.get('dw') else 1,
+                            'output_shape': (1,) + tuple(shapes[op['out']])}
+                    fn = ne16._ne16_latency_conv2d_dw \
+                        if (op.get('dw') or op['cin'] == op['cout'] == 1) \
+                        else ne16._ne16_latency_conv2d_generic
+                else:
+                    spec = {'in_features': torch.tensor(float(sum(alive[op['src']]))),
+                            'out_features': torch.tensor(float(op['fout'])),
+                            'output_shape': (1, op['fout'])}
+                    fn = ne16._ne16_latency_linear
+                spec.update({'w_precision': torch.tensor(float(s['w_precision'])),
+                             'in_precision': torch.tensor(float(s['in_precision'])),
+                             'w_theta_alpha': torch.tensor(1.0)})
+                want += float(fn(spec))
         try:
             g = float(mps.get_cost('ne16_latency'))
             ctx.mon('c05.ne16')
